@@ -59,7 +59,7 @@ def configs(tier):
          _cfg(["CF81", "CF82", "CFI81", "CFV81", "SF81", "GST"], out=0, fin=1),
          _cfg(["CF81", "CF82", "GST"], out=0, pace=2, gap=4, ready=3, fin=1, quiet=1),
          _cfg(["CF81", "CF82"], out=0, delays=range(1, 41), last=1),
-         _cfg(["CF81"], in2=0, delays=range(1, 45), last=0, gap=2, pace=2)]
+         _cfg(["CF81"], out=0, in2=0, delays=range(1, 49), last=0, gap=2, pace=2, ready=2, quiet=1)]
     return q + t
 
 
